@@ -38,7 +38,7 @@ m = {
     "engines": [{"name": "tlc", "path": "/verif/spec", "serves_properties": sorted(CHECKS), "kind_free_text": "explicit TLA+ specification checked by TLC 1.8 (design-level model checking, generation, trace validation of recorded calls of the real library)"}],
     "checks": checks,
     "not_applicable": na,
-    "notes": "See DESIGN.md. Every check: exit 0 held / exit 1 with VIOLATION line / exit 2 machinery failure.",
+    "notes": "See DESIGN.md. Every check: exit 0 held / exit 1 with VIOLATION line / exit 2 machinery failure. `./check selftest` demonstrates the binding: traces of the unchanged library are accepted by the trace specifications, the same traces with one recorded field corrupted are rejected by TLC. `seeded/` holds 264 single changes to the library (tests stay green) with the record of which quick checks catch them; `tools/verify_seeds.py` re-runs them in a scratch worktree.",
 }
 json.dump(m, open(os.path.join(HERE, "MANIFEST.json"), "w"), indent=1)
 print("checks:", [c["property_id"] for c in checks], "na:", [n["property_id"] for n in na])
